@@ -224,6 +224,60 @@ def run(ctx):
                       f"model disagrees", m, {"scorer": m["scorer"], "what": "malformed", "arg": m["arg_kind"]})
     narrow_dtype_stream(ctx)
     refit_stream(ctx)
+    local_scores_longer_series_stream(ctx)
+
+
+def local_scores_longer_series_stream(ctx):
+    """The exhaustive boxes above stop at 5 samples for four-point cuts -- too short for a local anomaly score whose cost needs 3 or more samples (multivariate Gaussian
+    on two or three columns).  Here: every VALID four-point cut of a series of 10..12 samples (by the definition: increasing, inner interval and the rows around it at least
+    min_size long) is accepted alone and in batches of a dozen rows of different shapes, and scored as the definition says; cuts that miss the definition by one are rejected."""
+    import itertools
+    import random as _rnd
+    rng = _rnd.Random(ctx.seed + 1315)
+    for rep in range(ctx.n(2, 6)):
+        p = rng.choice([2, 2, 3])
+        n = rng.randint(10, 12)
+        X = np.asarray([[rng.gauss(0, 1) for _ in range(p)] for _ in range(n)])
+        for name, sc, kind, ref in scorers(p):
+            if kind[0] != "Local":
+                continue
+            ms = kind[1]
+            sc.fit(X)
+            valid = [r for r in itertools.combinations(range(n + 1), 4) if r[2] - r[1] >= ms and (r[1] - r[0]) + (r[3] - r[2]) >= ms]
+            if not valid:
+                continue
+            ctx.case({"local-long": name, "rep": rep, "n": n, "p": p}, nontrivial=True)
+            ctx.count("local_longer_series", name.split("(")[1].rstrip(")") if "(" in name else name)
+            inp = {"scorer": name, "n": n, "p": p, "X": X.tolist()}
+            bad = None
+            for r in rng.sample(valid, min(len(valid), 40)):
+                st, val = classify(sc, np.array([r]))
+                if st == "ValueError" or (st.startswith("other:") and "RuntimeError" not in st):
+                    bad = (f"the valid cut {list(r)} (min_size {ms}) is not scored: {st}", {"cut": list(r)})
+                    break
+            for _ in range(6):
+                if bad:
+                    break
+                rows = rng.sample(valid, min(len(valid), 12))
+                st, val = classify(sc, np.array(rows))
+                if st == "ValueError" or (st.startswith("other:") and "RuntimeError" not in st):
+                    bad = (f"a batch of {len(rows)} valid cuts of different shapes is not scored although each of them is valid on its own: {st}", {"cuts": [list(r) for r in rows]})
+                elif st == "ok":
+                    try:
+                        singles = np.vstack([np.asarray(sc.evaluate(np.array([r])), dtype=float) for r in rows])
+                        if np.asarray(val).shape != singles.shape or not np.allclose(np.asarray(val, dtype=float), singles, rtol=1e-10, atol=1e-10, equal_nan=True):
+                            bad = ("the rows of a batch differ from the cuts evaluated one at a time", {"cuts": [list(r) for r in rows]})
+                    except RuntimeError:
+                        pass
+            near = [r for r in itertools.combinations(range(n + 1), 4) if r not in set(valid)]
+            for r in rng.sample(near, min(len(near), 30)):
+                if bad:
+                    break
+                st, _ = classify(sc, np.array([r]))
+                if st == "ok":
+                    bad = (f"the cut {list(r)} violates the minimum sizes (min_size {ms}) but is scored", {"cut": list(r)})
+            if bad:
+                ctx.violation(f"{name} on a series of {n} samples, {p} columns: {bad[0]}", dict(inp, **bad[1]), {"scorer": name, "what": "local-longer-series"})
 
 
 def refit_stream(ctx):
